@@ -245,7 +245,23 @@ def tie_cases(rng, deep):
     plan = [(e, w) for e in ('ig', 'jwl') for w in PATTERNS]
     if deep:
         plan = plan * 10
-    return [gen_case(rng, e, w) for e, w in plan]
+    cases = [gen_case(rng, e, w) for e, w in plan]
+    if deep:
+        # the solver's default table sizes: its default problem (Sod) and the two JWL problems of the test-suite
+        full = dict(num_int_pts=10001, num_x_pts=10001)
+        cases.append(dict(pl=1., rl=1., ul=0., gl=1.4, pr=.1, rr=.125, ur=0., gr=1.4, xmin=0., xd0=.5, xmax=1., t=.25,
+                          tag='ig:sod', **full))
+        cases.append(dict(SHYUE, xmin=0., xd0=50., xmax=100., t=12., tag='jwl:shyue', **full))
+        cases.append(dict(LEE, xmin=0., xd0=50., xmax=100., t=20., tag='jwl:lee', **full))
+        # boundary case: identical (p, rho, u), unequal gammas — the `==` side detection labels the right state
+        # "left" (the known identical-states finding); the model must reproduce what the code does
+        for _ in range(2):
+            c = gen_case(rng, 'ig', 'SCS')
+            c.update(pr=c['pl'], rr=c['rl'], ur=c['ul'], tag='ig:identical')
+            if abs(c['gl'] - c['gr']) < 0.05:
+                c['gr'] = c['gl'] + 0.3
+            cases.append(c)
+    return cases
 
 
 def tie_geneos(rng, deep, cases=None):
@@ -348,3 +364,444 @@ def tie_geneos(rng, deep, cases=None):
     if cov['missing'] and not res['mismatches']:
         res['mismatches'].append(dict(why='generator no longer covers the patterns %r' % cov['missing']))
     return res
+
+
+# ======================================================================================
+# oracles on the real public GenEOS_Solver
+# ======================================================================================
+
+KINDS = {'SCS': 'SCS', 'SCR': 'SCTH', 'RCS': 'HTCS', 'RCR': 'HTCTH'}     # shock, contact, fan head / tail
+
+
+def plain_solve(c, xs, cls=GEN):
+    """public call without capture; returns (fields, solver) or (None, exception name)"""
+    from py2lean.trace import load
+    _, C = load(cls)
+    kw = {k: c[k] for k in c if k not in ('t', 'tag', 'v')}
+    if cls == IG:
+        kw = {k: v for k, v in kw.items() if k in STATE + ('xmin', 'xd0', 'xmax')}
+    try:
+        with hush():
+            s = C(**kw)
+            sol = s(np.array(xs, dtype=float), c['t'])
+        return {n: np.array(sol[n], dtype=float) for n in sol.dtype.names}, s
+    except Exception as ex:
+        return None, type(ex).__name__
+
+
+def cell(s):
+    """width of a cell of the solver's own grid"""
+    x = np.asarray(s.x, dtype=float)
+    return float(x[-1] - x[0]) / max(int(s.num_x_pts) - 1, 1)
+
+
+def safe_points(c, V, h, n=13, margin=2.5):
+    """points across all regions, at least `margin` cells away from every wave position (the general solver
+    smears every discontinuity over one cell of its grid)"""
+    X = sorted(c['xd0'] + c['t'] * v for v in V)
+    lo, hi = X[0] - 0.25 * (X[-1] - X[0]) - 4 * h, X[-1] + 0.25 * (X[-1] - X[0]) + 4 * h
+    edges = [lo] + X + [hi]
+    xs = []
+    for a, b in zip(edges, edges[1:]):
+        a2, b2 = a + margin * h, b - margin * h
+        if b2 > a2:
+            k = max(2, int(round(n * (b - a) / (hi - lo))))
+            xs += [a2 + (b2 - a2) * (j + 0.5) / k for j in range(k)]
+    return xs
+
+
+def sie_closure(c, p, r, g):
+    """the declared closure: e(p, rho) — ideal gas, or the JWL form of the documentation ([Kamm2015], [Lee2013])"""
+    if c.get('problem', 'igeos') == 'igeos':
+        return p / ((g - 1.) * r)
+    w = g - 1.
+    f = (c['A'] * (1 - w * r / (c['R1'] * c['r0'])) * math.exp(-c['R1'] * c['r0'] / r)
+         + c['B'] * (1 - w * r / (c['R2'] * c['r0'])) * math.exp(-c['R2'] * c['r0'] / r))
+    return (p - f) / (w * r)
+
+
+def res_scale(c, px=None):
+    """the relative accuracy the tables allow: linear interpolation in tables of `num_int_pts` rows and on a grid of
+    `num_x_pts` nodes drawn tightly around the waves — second order; normalised to 1 for 301 rows"""
+    return (301. / float(c['num_int_pts'])) ** 2
+
+
+def star_pressure(c, V, pat, xs, f):
+    """the pressure the solver returns next to the contact"""
+    Xc = c['xd0'] + c['t'] * V[KINDS[pat].index('C')]
+    i = int(np.argmin([abs(x - Xc) for x in xs]))
+    return float(f['pressure'][i])
+
+
+def make_geneos(gen, check, name, smoke):
+    """quick tier: the fixed smoke set `smoke` (2-3 solves at reduced table size); thorough tier / broken
+    obligation / replay: random sweep for max(budget, 30 s)"""
+    import random
+    import time
+
+    memo = {}
+
+    def run(rng, budget, deep, replay=None):
+        res = dict(evaluations=0, failures=[], samples=[], worst=None, distinct_nontrivial=0)
+        if replay is None and not deep and 'smoke' in memo:
+            # the smoke set is fixed: several obligations of one check share one evaluation of it
+            return dict(memo['smoke'], evaluations=0, distinct_nontrivial=0, samples=[])
+        with warnings.catch_warnings():
+            warnings.simplefilter('ignore')
+            with np.errstate(all='ignore'):
+                if replay is not None:
+                    case = replay.get('case', replay)
+                    f = check(case)
+                    res['evaluations'] = 1
+                    if f:
+                        f['case'] = case
+                        res['failures'].append(f)
+                    return res
+                t0 = time.time()
+                limit = max(budget, 30.0) if deep else 0.0
+                fixed = random.Random(20260926)          # the smoke set does not depend on VERIF_SEED
+                todo = [gen(fixed, e, w) for e, w in smoke]
+                k = 0
+                while True:
+                    if k < len(todo):
+                        case = todo[k]
+                    elif deep and time.time() - t0 < limit:
+                        e, w = [(e, w) for e in ('ig', 'jwl') for w in PATTERNS][k % 8]
+                        case = gen(rng, e, w)
+                    else:
+                        break
+                    k += 1
+                    f = check(case)
+                    res['evaluations'] += 1
+                    res['distinct_nontrivial'] += 1
+                    if not res['samples']:
+                        res['samples'].append(dict(oracle=name, case=case))
+                    if f:
+                        f['case'] = case
+                        f.setdefault('oracle', name)
+                        if f.get('site') not in [x.get('site') for x in res['failures']]:
+                            res['failures'].append(f)
+        res['worst'] = dict(fraction_of_tolerance=dict(WORST))
+        if not deep:
+            memo['smoke'] = res
+        return res
+    run.__name__ = name
+    return run
+
+
+def gen_oracle_case(rng, eos, want):
+    return gen_case(rng, eos, want, sizes=((601,), (601,)))
+
+
+def _waves(c):
+    """one public call to learn the pattern and the wave speeds (they do not depend on the window), then the
+    window is drawn tightly around the waves so that the solver's grid resolves them: returns
+    (case with that window, pattern, Vregs, predicted cell width of the solver's grid)"""
+    f, s = plain_solve(c, [c['xd0']])
+    if f is None:
+        return None
+    pat = str(s.soln_type)
+    if pat not in PATTERNS:
+        return None
+    V = [float(v) for v in s.Vregs]
+    X = [c['xd0'] + c['t'] * v for v in V]
+    span = X[-1] - X[0]
+    c2 = dict(c, xmin=X[0] - 0.35 * span, xmax=X[-1] + 0.35 * span)
+    lo, hi = min(c2['xmin'], 1.1 * min(X)), max(c2['xmax'], 1.1 * max(X))      # the driver's own window rule
+    return c2, pat, V, (hi - lo) / (int(c['num_x_pts']) - 1)
+
+
+WORST = {}        # oracle -> worst relative error seen (calibration / evidence)
+
+
+def _over(kind, err, tol, site, detail):
+    """record the error (as a fraction of the allowed one); a failure dict when it exceeds the tolerance"""
+    if not err / tol <= WORST.get(kind, 0.0):
+        WORST[kind] = err / tol
+    if not err <= tol:
+        return dict(site=site, detail=detail + ' (relative error %.3g, allowed %.3g)' % (err, tol))
+    return None
+
+
+def _name(c):
+    return 'GenEOS' if c.get('problem', 'igeos') == 'igeos' else 'GenEOS-JWL'
+
+
+# ---- C07: GenEOS_Solver vs IGEOS_Solver on ideal-gas data ---------------------------------------
+
+TOL_IVG = 2.5e-2     # x res_scale; worst on the unchanged tree 2.1e-3 at 301 rows (400 cases, see `calibrate`)
+
+
+def _ivg_check(c):
+    if c.get('problem', 'igeos') != 'igeos':
+        return None
+    w = _waves(c)
+    if w is None:
+        return None
+    c, pat, V, h = w
+    xs = safe_points(c, V, h)
+    if not xs:
+        return None
+    fb, sb = plain_solve(c, xs)
+    fa, sa = plain_solve(c, xs, cls=IG)
+    if fa is None or fb is None:
+        return None
+    ipat = str(sa.soln_type).split('-')[-1]
+    if ipat != pat:
+        return dict(site='GenvsIG:%s:pattern' % pat, detail='IGEOS_Solver selects %s, GenEOS_Solver %s' % (ipat, pat))
+    tol = TOL_IVG * res_scale(c, star_pressure(c, V, pat, xs, fb))
+    sc = max(abs(v) for v in sa.Vregs) + math.sqrt(c['gl'] * c['pl'] / c['rl']) + math.sqrt(c['gr'] * c['pr'] / c['rr'])
+    for a, b in zip(sa.Vregs, V):
+        f = _over('ivg', abs(a - b) / sc, tol, 'GenvsIG:%s:Vregs' % pat, 'IGEOS %r GenEOS %r' % (list(map(float, sa.Vregs)), V))
+        if f:
+            return f
+    for n in FIELDS:
+        for i in range(len(xs)):
+            a, b = float(fa[n][i]), float(fb[n][i])
+            s = max(abs(a), abs(b)) if n != 'velocity' else max(abs(a), abs(b), math.sqrt(abs(fa['pressure'][i] / fa['density'][i])))
+            f = _over('ivg', abs(a - b) / s, tol, 'GenvsIG:%s:%s' % (pat, n), 'x=%r IGEOS %r GenEOS %r' % (xs[i], a, b))
+            if f:
+                return f
+    return None
+
+
+ig_vs_gen = make_geneos(gen_oracle_case, _ivg_check, 'geneos.ig_vs_gen', [('ig', 'RCS'), ('ig', 'SCR')])
+
+
+# ---- C02: Rankine-Hugoniot / contact from the returned fields -------------------------------------
+
+TOL_RH = 1.5e-2      # x res_scale; worst on the unchanged tree 1.3e-3 (flux across a shock from interpolated star values)
+
+
+def _rh_check(c):
+    w = _waves(c)
+    if w is None:
+        return None
+    c, pat, V, h = w
+    kinds = KINDS[pat]
+    X = [c['xd0'] + c['t'] * v for v in V]
+    gap = min([b - a for a, b in zip(X, X[1:])])
+    d = 2.5 * h
+    if gap < 3 * d:
+        return None          # two waves closer than a few cells: no room to sample between them
+    xs = []
+    for Xi in X:
+        xs += [Xi - d, Xi + d]
+    f, s = plain_solve(c, xs)
+    if f is None:
+        return None
+    tol = TOL_RH * res_scale(c, float(f['pressure'][2 * kinds.index('C')]))
+    name = _name(c)
+    for i, (k, D) in enumerate(zip(kinds, V)):
+        a = {n: float(f[n][2 * i]) for n in f}
+        b = {n: float(f[n][2 * i + 1]) for n in f}
+        if k == 'S':
+            st = []
+            for z in (a, b):
+                r, u, p, e = z['density'], z['velocity'], z['pressure'], z['specific_internal_energy']
+                m = r * (u - D)
+                st.append((m, m * u + p, m * (e + u * u / 2.) + p * u, r, u, p, e))
+            cs = math.sqrt(max(st[0][5] / st[0][3], st[1][5] / st[1][3]))
+            for j, nm in enumerate(('mass', 'momentum', 'energy')):
+                rmax, pmx = max(st[0][3], st[1][3]), max(st[0][5], st[1][5])
+                emax = max(abs(st[0][6]), abs(st[1][6]), cs * cs)
+                sc = [rmax * cs, pmx, rmax * cs * emax][j]
+                ff = _over('rh', abs(st[0][j] - st[1][j]) / sc, tol, '%s:%s:shock%d:%s' % (name, pat, i, nm),
+                           'D=%r flux left %r right %r' % (D, st[0][j], st[1][j]))
+                if ff:
+                    return ff
+            if a['pressure'] == b['pressure'] and a['density'] == b['density']:
+                return dict(site='%s:%s:shock%d:no-jump' % (name, pat, i), detail='the fields do not jump at Vregs[%d]' % i)
+        elif k == 'C':
+            sp = max(abs(a['pressure']), abs(b['pressure']))
+            su = max(abs(a['velocity']), abs(b['velocity']), math.sqrt(sp / max(a['density'], b['density'])))
+            for err, what, det in ((abs(a['pressure'] - b['pressure']) / sp, 'pressure', 'p- %r p+ %r' % (a['pressure'], b['pressure'])),
+                                   (abs(a['velocity'] - b['velocity']) / su, 'velocity', 'u- %r u+ %r' % (a['velocity'], b['velocity'])),
+                                   (abs(a['velocity'] - D) / su, 'speed', 'u %r Vregs %r' % (a['velocity'], D))):
+                ff = _over('rh', err, tol, '%s:%s:contact:%s' % (name, pat, what), det)
+                if ff:
+                    return ff
+    return None
+
+
+rh = make_geneos(gen_oracle_case, _rh_check, 'geneos.rh', [('jwl', 'RCS'), ('ig', 'SCS'), ('jwl', 'SCR')])
+
+
+# ---- C03: declared closure at returned points -----------------------------------------------------
+
+TOL_EOS = 2.5e-3     # x res_scale; worst on the unchanged tree 2.1e-4 (fan interior: p, rho, e interpolated separately)
+
+
+def _eos_check(c):
+    w = _waves(c)
+    if w is None:
+        return None
+    c, pat, V, h = w
+    Xc = c['xd0'] + c['t'] * V[KINDS[pat].index('C')]
+    xs = safe_points(c, V, h, n=25)
+    if not xs:
+        return None
+    f, s = plain_solve(c, xs)
+    if f is None:
+        return None
+    tol = TOL_EOS * res_scale(c, star_pressure(c, V, pat, xs, f))
+    name = _name(c)
+    for i, x in enumerate(xs):
+        g = c['gl'] if x < Xc else c['gr']
+        p, r, e = float(f['pressure'][i]), float(f['density'][i]), float(f['specific_internal_energy'][i])
+        if not all(map(math.isfinite, (p, r, e))):
+            return dict(site='%s:%s:nonfinite' % (name, pat), detail='x=%r p=%r rho=%r e=%r' % (x, p, r, e))
+        want = sie_closure(c, p, r, g)
+        sc = max(abs(e), abs(want), p / r)
+        ff = _over('eos', abs(e - want) / sc, tol, '%s:%s:e=sie(p,rho)' % (name, pat),
+                   'x=%r (%s of the contact) p=%r rho=%r e=%r closure %r' % (x, 'left' if x < Xc else 'right', p, r, e, want))
+        if ff:
+            return ff
+    return None
+
+
+eos = make_geneos(gen_oracle_case, _eos_check, 'geneos.eos', [('jwl', 'RCR'), ('ig', 'SCR'), ('jwl', 'SCS')])
+
+
+# ---- C09: mirror and boost ------------------------------------------------------------------------
+
+TOL_MIRROR = 2.5e-3  # x res_scale; worst on the unchanged tree 2.1e-4 (same tables; the grids differ: window rule
+                     # `1.1 * Xregs` and the node at 0 the driver appends are not reflected with the problem)
+TOL_BOOST = 2.5e-3   # x res_scale; worst on the unchanged tree 1.8e-4 (same reason)
+
+
+def _compare_sym(kind, fa, fb, sign_u, shift, site, tol):
+    for n in FIELDS:
+        for i in range(len(fa[n])):
+            a = float(fa[n][i])
+            b = float(fb[n][i])
+            if n == 'velocity':
+                a = sign_u * a + shift
+                sc = max(abs(a), abs(b), math.sqrt(abs(fb['pressure'][i] / fb['density'][i])))
+            else:
+                sc = max(abs(a), abs(b))
+            ff = _over(kind, abs(a - b) / sc, tol, site + ':' + n, 'point %d: expected %r got %r' % (i, a, b))
+            if ff:
+                return ff
+    return None
+
+
+def _mirror_check(c):
+    w = _waves(c)
+    if w is None:
+        return None
+    c, pat, V, h = w
+    xs = safe_points(c, V, h, margin=3.5)
+    if not xs:
+        return None
+    fa, sa = plain_solve(c, xs)
+    m = dict(c, pl=c['pr'], rl=c['rr'], ul=-c['ur'], gl=c['gr'], pr=c['pl'], rr=c['rl'], ur=-c['ul'], gr=c['gl'],
+             xmin=2 * c['xd0'] - c['xmax'], xmax=2 * c['xd0'] - c['xmin'])
+    fb, sb = plain_solve(m, [2 * c['xd0'] - x for x in xs])
+    if fa is None:
+        return None
+    name = _name(c)
+    if fb is None:
+        return dict(site='%s:%s:mirror:raises' % (name, pat), detail='mirrored problem raises %s' % sb)
+    mp = {'SCR': 'RCS', 'RCS': 'SCR'}.get(pat, pat)
+    if str(sb.soln_type) != mp:
+        return dict(site='%s:%s:mirror:pattern' % (name, pat), detail='mirrored problem classified %s' % sb.soln_type)
+    tol = TOL_MIRROR * res_scale(c, star_pressure(c, V, pat, xs, fa))
+    sc = max(abs(v) for v in V) + 1e-300
+    for a, b in zip(V, [-float(v) for v in sb.Vregs][::-1]):
+        ff = _over('mirror', abs(a - b) / sc, tol, '%s:%s:mirror:Vregs' % (name, pat),
+                   'original %r mirrored %r' % (V, list(map(float, sb.Vregs))))
+        if ff:
+            return ff
+    return _compare_sym('mirror', fa, fb, -1.0, 0.0, '%s:%s:mirror' % (name, pat), tol)
+
+
+def _boost_check(c):
+    w = _waves(c)
+    if w is None:
+        return None
+    c, pat, V, h = w
+    xs = safe_points(c, V, h, margin=3.5)
+    if not xs:
+        return None
+    fa, sa = plain_solve(c, xs)
+    v = c.get('v', 0.7 * (abs(c['ul']) + abs(c['ur']) + 1.0))
+    b = dict(c, ul=c['ul'] + v, ur=c['ur'] + v, xmin=c['xmin'] + v * c['t'], xmax=c['xmax'] + v * c['t'])
+    fb, sb = plain_solve(b, [x + v * c['t'] for x in xs])
+    if fa is None:
+        return None
+    name = _name(c)
+    if fb is None:
+        return dict(site='%s:%s:boost:raises' % (name, pat), detail='boosted problem raises %s' % sb)
+    if str(sb.soln_type) != pat:
+        return dict(site='%s:%s:boost:pattern' % (name, pat), detail='boosted problem classified %s' % sb.soln_type)
+    tol = TOL_BOOST * res_scale(c, star_pressure(c, V, pat, xs, fa))
+    sc = max(abs(x) for x in V) + abs(v) + 1e-300
+    for a, bb in zip(V, sb.Vregs):
+        ff = _over('boost', abs(a + v - float(bb)) / sc, tol, '%s:%s:boost:Vregs' % (name, pat),
+                   'original %r boosted %r (v=%r)' % (V, list(map(float, sb.Vregs)), v))
+        if ff:
+            return ff
+    return _compare_sym('boost', fa, fb, 1.0, v, '%s:%s:boost' % (name, pat), tol)
+
+
+mirror = make_geneos(gen_oracle_case, _mirror_check, 'geneos.mirror', [('ig', 'RCS'), ('jwl', 'SCS')])
+boost = make_geneos(gen_oracle_case, _boost_check, 'geneos.boost', [('jwl', 'RCS'), ('ig', 'RCR')])
+
+
+def calibrate(rng, n=40):
+    """worst relative error of every oracle over n random cases per oracle (run on the unchanged tree to set the
+    tolerances: TOL = 10 x worst, rounded up)"""
+    WORST.clear()
+    fails = []
+    for name, chk in dict(ivg=_ivg_check, rh=_rh_check, eos=_eos_check, mirror=_mirror_check, boost=_boost_check).items():
+        for k in range(n):
+            e, w = [(e, w) for e in ('ig', 'jwl') for w in PATTERNS][k % 8]
+            f = chk(gen_oracle_case(rng, e, w))
+            if f:
+                fails.append((name, f['site'], f['detail'][:160]))
+    return dict(WORST), fails
+
+
+# ---- C04: integral conservation of the returned fields (smoke set in quick; o_c04.gen_ig/gen_jwl are thorough-only) ----
+
+TOL_CONS = 4e-3      # x res_scale (601-row tables: 1e-3), plus the grid term 2 h (sum of jumps) of o_c04.check_case;
+                     # worst on the unchanged tree beyond the grid term: 6e-5 (144 cases)
+
+
+def _cons_check(c):
+    from . import o_c04
+    w = _waves(c)
+    if w is None:
+        return None
+    c, pat, V, h = w
+    p = {k: c[k] for k in c if k not in ('t', 'tag', 'v')}
+    X = [c['xd0'] + c['t'] * v for v in V]
+    span = X[-1] - X[0]
+    a, b = X[0] - 0.2 * span - 6 * h, X[-1] + 0.2 * span + 6 * h
+    try:
+        with hush():
+            pat2, V2, I, exp, M, info = o_c04.integrals(GEN, p, V, a, b, c['t'], n_mid=0)
+    except Exception:
+        return None
+    px = None
+    name = _name(c)
+    for i, comp in enumerate(o_c04.COMP):
+        if not (math.isfinite(I[i]) and math.isfinite(exp[i])):
+            continue
+        scale = max(o_c04.FLOOR, abs(I[i]), abs(exp[i]))
+        err = abs(I[i] - exp[i]) / scale
+        grid = 2.0 * info['h'] * info['var'][i] / scale
+        tol = TOL_CONS * res_scale(c, px) + grid
+        ff = _over('cons', max(err - grid, 0.0), TOL_CONS * res_scale(c, px), '%s:%s:%s' % (name, pat, comp),
+                   't=%r [a,b]=[%r,%r] Vregs=%r integral=%r expected=%r grid allowance %.3g' % (c['t'], a, b, V, I[i], exp[i], grid))
+        if ff:
+            return ff
+    return None
+
+
+def gen_cons_case(rng, eos, want):
+    return gen_case(rng, eos, want, sizes=((601,), (601,)))
+
+
+conservation = make_geneos(gen_cons_case, _cons_check, 'geneos.conservation', [('jwl', 'RCS'), ('ig', 'SCR')])
